@@ -10,7 +10,7 @@ Line protocol of C14 (blocks start with `C14.reset`):
       each with a one-token content of its own)
   C14.put <path>                                  => ok
       the harness created (or replaced) a file out of band
-  C14.save <variant> <size> <seed> <expectCommit> <nExtra>
+  C14.save <variant> <size> <seed> <expectCommit> <nExtra> <probe: same|xdev|notmp|faildir>
         => <committed> <newLen> <finalOK> <reads> <badReads> <k> <name>*k <n> <event>*n
       one real save under strace.  events: c:<path>:<fd>  o:<path>:<fd>:<trunc>
       w:<fd>:<len>  s:<fd>  x:<fd>  r:<a>:<b>  u:<a>  q:<name> (unsupported)
@@ -140,20 +140,38 @@ def allAccepted : FS → List Sys → Bool
 
 /-- Recognise the observed trace as an instance of the model's writer: pull the
 oracle values (temp names, descriptors, chunking) out of it, rebuild the
-program from them and return it. -/
-def instanceOf (dest : Path) (commit : Bool) (nExtra : Nat) (evs : List Sys) : Option (List Sys) :=
-  match evs with
-  | .creat a f1 :: _ :: .creat b f2 :: _ :: e5 :: _ :: .creat tmp fd :: rest =>
-    let same := match e5 with | .rename _ _ => true | _ => false
-    let pr : Probe := ⟨a, b, f1, f2, same⟩
+program from them and return it.  `probe` (an input: the harness chose where
+TMPDIR points and whether the destination directory accepts new entries) fixes
+the shape of the start. -/
+def instanceOf (dest : Path) (probe : String) (commit : Bool) (nExtra : Nat) (evs : List Sys) :
+    Option (List Sys) :=
+  let body (pr : Probe) (tmp : Path) (fd : Nat) (rest : List Sys) : Option (List Sys) :=
     let ws := rest.takeWhile (fun e => match e with | .write _ _ => true | _ => false)
     let chunks := ws.filterMap (fun e => match e with | .write _ d => some d | _ => none)
-    let core := if commit then atomicWrite pr dest tmp fd chunks else pendingAbort pr tmp fd chunks
+    let sv : Save := { pr := pr, tmp := tmp, fd := fd, chunks := chunks, commit := commit }
+    let core := sv.prog dest
     let tail := evs.drop core.length
     let tailOK := tail.length == nExtra &&
       tail.all (fun e => match e with | .unlink p => p != dest | _ => false)
-    if a != dest && b != dest && tmp != dest && tailOK then some (core ++ tail) else none
-  | _ => none
+    if pr.src != dest && pr.dst != dest && tmp != dest && tailOK then some (core ++ tail) else none
+  if probe == "faildir" then
+    match evs with
+    | .creat a f1 :: _ =>
+      let sv : Save := { pr := ⟨a, a, f1, f1, .sameMount⟩, tmp := a, fd := f1, chunks := [],
+                         commit := false, started := false }
+      if a != dest && nExtra == 0 then some (sv.prog dest) else none
+    | _ => none
+  else if probe == "notmp" then
+    match evs with
+    | .creat tmp fd :: rest => body ⟨tmp, tmp, fd, fd, .noTmp⟩ tmp fd rest
+    | _ => none
+  else
+    match evs with
+    | .creat a f1 :: _ :: .creat b f2 :: _ :: _ :: _ :: .creat tmp fd :: rest =>
+      if probe == "same" then body ⟨a, b, f1, f2, .sameMount⟩ tmp fd rest
+      else if probe == "xdev" then body ⟨a, b, f1, f2, .otherMount⟩ tmp fd rest
+      else none
+    | _ => none
 
 def whyName : Why → String
   | .visible => "C14.visible" | .crash => "C14.crash" | .final => "C14.final" | .reader => "C14.reader"
@@ -163,7 +181,7 @@ def takeList (n : Nat) (fs : List String) : Option (List String × List String) 
 
 def stepSave (st : St) (ins impl : List String) : Option (St × String) := do
   match ins, impl with
-  | [_variant, _size, _seed, expectCommit, nExtra],
+  | [_variant, _size, _seed, expectCommit, nExtra, probe],
     committed :: newLen :: finalOK :: _reads :: badReads :: k :: rest =>
     let expectCommit ← parseBool expectCommit
     let nExtra ← parseNat nExtra
@@ -185,7 +203,7 @@ def stepSave (st : St) (ins impl : List String) : Option (St × String) := do
       let known := st.known ++ paths evs
       let final := run st.fs evs
       -- model side
-      let modelProg := instanceOf st.dest expectCommit nExtra evs
+      let modelProg := instanceOf st.dest probe expectCommit nExtra evs
       let modelStr := match modelProg with
         | none => "no-instance"
         | some prog =>
